@@ -1,6 +1,7 @@
 package props
 
 import (
+	"context"
 	"encoding/base64"
 	"fmt"
 	"math/rand"
@@ -329,6 +330,7 @@ func init() {
 			r.Require("requests_repeated_after_they_stopped_being_acceptable", 40)
 			return []core.Workload{
 				{Name: "deviations", N: c.Pick(2000, 24000), Fn: c06Case},
+				{Name: "window_closes_while_the_request_is_served", N: 6, Workers: 6, Fn: c06ExpiresMeanwhile},
 				{Name: "multi_host_sequences", N: c.Pick(150, 1500), Fn: func(r *core.Run, idx int, rng *rand.Rand) {
 					multiHostSequence(r, "multi_host_sequences", idx, rng, true)
 				}},
@@ -340,4 +342,52 @@ func init() {
 		},
 		After: func(c *Ctx) { verify.Py.Close() },
 	})
+}
+
+// c06ExpiresMeanwhile: the request is inside its validity window when it arrives and no longer when it would be
+// accepted, because a storage call of the handler takes longer than the rest of the window.
+func c06ExpiresMeanwhile(r *core.Run, idx int, rng *rand.Rand) {
+	const wl = "window_closes_while_the_request_is_served"
+	c := conformantSSO(rng)
+	c.Signed = false
+	c.SPD.AuthnRequestsSigned, c.Want = "", ""
+	c.Req.Conditions = true
+	c.Req.NotBefore = ""
+	heldOp := []string{"GetEntityByID", "GetResponseSigningKey", "GetEntityByID"}[idx%3]
+	const window, hold = 1000 * time.Millisecond, 3200 * time.Millisecond
+	c.Labels = []string{"window_closes_meanwhile", "held_in=" + heldOp}
+	var t0 time.Time
+	e, call := c.run(rng, func(e *env.Env) {
+		e.W.Before = func(_ context.Context, _, op string, occ int) {
+			if op == heldOp && occ == 1 {
+				time.Sleep(hold)
+			}
+		}
+		t0 = time.Now()
+		c.Req.NotOnOrAfter = tsFrac(t0.Add(window), 3)
+	})
+	_ = e
+	r.Eval(fmt.Sprintf("%s|%d", c.label(), idx))
+	r.Count("requests_whose_window_closed_meanwhile", 1)
+	if call.Panic != "" {
+		r.Violate(core.Violation{Clause: "panic", Class: c.label(), Reason: call.Panic, Workload: wl, Index: idx, Case: c.describe(), Observed: call.Describe()})
+		return
+	}
+	ev := call.First("CreateAuthRequest")
+	accepted := ev != nil && !ev.Err
+	if !accepted {
+		return
+	}
+	// was the held call really made before the acceptance, and did it take its time?
+	if call.T1.Sub(t0) < hold {
+		r.Count("window_case_without_the_slow_call", 1)
+		return
+	}
+	noa, err := time.Parse(time.RFC3339Nano, c.Req.NotOnOrAfter)
+	if err != nil {
+		return
+	}
+	if late := call.T1.Add(-hold / 8).Sub(noa); late > time.Second {
+		r.Violate(core.Violation{Clause: "deviation_accepted", Class: c.label(), Reason: fmt.Sprintf("accepted (persisted and sent on to login) about %s after its NotOnOrAfter %s had passed: the window was checked before a storage call that took %s", late.Round(100*time.Millisecond), c.Req.NotOnOrAfter, hold), Workload: wl, Index: idx, Case: c.describe(), Observed: call.Describe()})
+	}
 }
